@@ -21,9 +21,10 @@ import (
 )
 
 // Extension descriptors of the three flavours, all int64-valued extensions of MessageOptions:
-//   v2[n]     protoreflect.ExtensionType (dynamicpb) of google.protobuf.MessageOptions
-//   v1[n]     *golang/protobuf ExtensionDesc (= protoimpl.ExtensionInfo) of descriptorpb.MessageOptions
-//   gogo[n]   *gogo ExtensionDesc of gogo's descriptor.MessageOptions
+//
+//	v2[n]     protoreflect.ExtensionType (dynamicpb) of google.protobuf.MessageOptions
+//	v1[n]     *golang/protobuf ExtensionDesc (= protoimpl.ExtensionInfo) of descriptorpb.MessageOptions
+//	gogo[n]   *gogo ExtensionDesc of gogo's descriptor.MessageOptions
 var (
 	extNums  = []int32{50100, 50101, 50102, 50103}
 	v2Exts   = map[int32]protoreflect.ExtensionType{}
